@@ -11,6 +11,8 @@ def sh(cmd, cwd):
 from concurrent.futures import ThreadPoolExecutor
 import threading
 NW = int(os.environ.get("REFRESH_WORKERS", "8"))
+ONLY = os.environ.get("REFRESH_ONLY", "")
+import re
 wts = []
 for _ in range(NW):
     w = tempfile.mkdtemp(prefix="seedwt.", dir=os.environ.get("TMPDIR", "/tmp"))
@@ -56,6 +58,8 @@ for kind, d in (("breaking", "seeded"), ("benign", "benign")):
     base = os.path.join(V, d)
     for name in sorted(os.listdir(base)):
         if os.path.exists(os.path.join(base, name, "meta.json")):
+            if ONLY and not re.search(ONLY, name):
+                continue  # REFRESH_ONLY=<regex>: a partial refresh (one round, one rule's changes); totals then cover that part only
             jobs.append((kind, d, name))
 rows = []
 try:
